@@ -805,8 +805,55 @@ pub fn run(args: &Args, rep: &mut Report) {
                     // (the buffer pointer is dangling, the length is not zero)
                     use bumpalo::collections::CollectIn;
                     let n = rng.below(9);
-                    let how = rng.below(6);
+                    let how = rng.below(10);
                     let (m0, d0) = ledger::zst_counts();
+                    if how >= 6 {
+                        // single zero-sized droppable values and arrays of them through into_inner / raw round trips / leak
+                        let (made, dropped_by_box, dropped_at_end): (u64, u64, u64) = match how {
+                            6 => {
+                                let bx = BBox::new_in(TrackedZst::new(), b);
+                                let inner = BBox::into_inner(bx);
+                                let (_, d1) = ledger::zst_counts();
+                                drop(inner);
+                                (1, d1 - d0, ledger::zst_counts().1 - d0)
+                            }
+                            7 => {
+                                let bx = BBox::new_in([TrackedZst::new(), TrackedZst::new(), TrackedZst::new()], b);
+                                let inner = BBox::into_inner(bx);
+                                let (_, d1) = ledger::zst_counts();
+                                drop(inner);
+                                (3, d1 - d0, ledger::zst_counts().1 - d0)
+                            }
+                            8 => {
+                                let bx = BBox::new_in(TrackedZst::new(), b);
+                                let raw = BBox::into_raw(bx);
+                                let bx = unsafe { BBox::from_raw(raw) };
+                                let inner = BBox::into_inner(bx);
+                                let (_, d1) = ledger::zst_counts();
+                                drop(inner);
+                                (1, d1 - d0, ledger::zst_counts().1 - d0)
+                            }
+                            _ => {
+                                let bx = BBox::new_in(TrackedZst::new(), b);
+                                let leaked: &mut TrackedZst = BBox::leak(bx);
+                                let _ = leaked;
+                                let (_, d1) = ledger::zst_counts();
+                                // leaked on purpose: the destructor never runs
+                                (0, d1 - d0, ledger::zst_counts().1 - d0)
+                            }
+                        };
+                        if dropped_by_box != 0 {
+                            v17(rep, "zst-box/destructor-ran-inside-into_inner-or-leak", format!("how {}: {} destructor call(s) before the caller let go of the value", how, dropped_by_box));
+                            vdrop(rep, "zst-box/destructor-ran-inside-into_inner-or-leak", format!("how {}: {} call(s)", how, dropped_by_box));
+                        }
+                        if dropped_at_end != made {
+                            v17(rep, "zst-box/value-not-dropped-exactly-once", format!("how {}: {} value(s) owned by the caller, {} destructor call(s)", how, made, dropped_at_end));
+                            vdrop(rep, "zst-box/value-not-dropped-exactly-once", format!("how {}: {} value(s), {} destructor call(s)", how, made, dropped_at_end));
+                        }
+                        rep.bump("c17.zst_boxed_slice_cases");
+                        rep.bump("c15.box_drop_checks");
+                        continue;
+                    }
                     let bx: BBox<[TrackedZst]> = match how {
                         0 => {
                             let mut v: BVec<TrackedZst> = BVec::new_in(b);
